@@ -35,7 +35,7 @@ func (c *Ctx) Choose(n int, label string) int {
 	if i < len(c.prefix) {
 		v = c.prefix[i]
 		if v >= n {
-			panic(fmt.Sprintf("mc: replay divergence at point %d (%s): choice %d of %d", i, label, v, n))
+			panic(Divergence(fmt.Sprintf("mc: replay divergence at point %d (%s): choice %d of %d", i, label, v, n)))
 		}
 	}
 	c.Trace = append(c.Trace, v)
@@ -94,6 +94,19 @@ func owner(tr []int, depth, n int) int {
 // sharding, executions near the root are run by every shard to discover the
 // tree; body must ask Owned(opts, c) after its last Choose before counting or
 // judging the execution.
+// Divergence is the panic value when an execution does not follow the prefix it
+// is replaying: the code under test did something else under the same
+// environment answers, i.e. something the harness does not own influenced it
+// (state left over in the process from an earlier execution, real time, ...).
+// It is never a verdict; a harness may recover it to report what it had found
+// before and must then end as a harness error, not as "held".
+type Divergence string
+
+func (d Divergence) Error() string { return string(d) }
+
+// HarnessNondeterminism marks the value for vlib.Run.Phase.
+func (d Divergence) HarnessNondeterminism() {}
+
 func Explore(opts Options, body func(c *Ctx)) Stats {
 	var st Stats
 	if opts.ShardN <= 0 {
@@ -114,7 +127,7 @@ func Explore(opts Options, body func(c *Ctx)) Stats {
 		c := &Ctx{prefix: prefix}
 		body(c)
 		if len(c.Trace) < len(prefix) {
-			panic(fmt.Sprintf("mc: replay divergence: execution ended after %d of %d prefix choices", len(c.Trace), len(prefix)))
+			panic(Divergence(fmt.Sprintf("mc: replay divergence: execution ended after %d of %d prefix choices", len(c.Trace), len(prefix))))
 		}
 		mine := Owned(opts, c)
 		if mine {
